@@ -91,6 +91,67 @@ func scDupName(x *vs.Exec) {
 	}
 }
 
+// dupsecret: the same race for secret proxies (stcp / sudp / xtcp), whose resource is an entry of the visitor-listener
+// table keyed by the proxy name: the refused registration must not take the winner's entry with it.
+func scDupSecret(kind string) func(x *vs.Exec) {
+	return func(x *vs.Exec) {
+		defer sw.Guard()
+		w := newWorld(x)
+		a, b := w.MustLogin("a", sw.LoginOpt{User: "ua"}), w.MustLogin("b", sw.LoginOpt{User: "ub"})
+		a.AutoWork()
+		b.AutoWork()
+		w.Quiesce()
+		var ra, rb string
+		var wg sync.WaitGroup
+		wg.Add(2)
+		vs.SetInterest(true)
+		go func() {
+			defer wg.Done()
+			ra = a.Reg(&msg.NewProxy{ProxyName: "n", ProxyType: kind, Sk: "key-a", AllowUsers: []string{"*"}})
+		}()
+		go func() {
+			defer wg.Done()
+			rb = b.Reg(&msg.NewProxy{ProxyName: "n", ProxyType: kind, Sk: "key-b", AllowUsers: []string{"*"}})
+		}()
+		wg.Wait()
+		w.Quiesce()
+		vs.SetInterest(false)
+		oka, okb := strings.HasPrefix(ra, "ok"), strings.HasPrefix(rb, "ok")
+		if oka == okb {
+			vs.Fail("two registrations of %s proxy name n: a=%s b=%s, expected exactly one to succeed", kind, ra, rb)
+			return
+		}
+		w.NameConsistency("after duplicate registration")
+		winKey, loseKey, winner := "key-a", "key-b", "a"
+		if okb {
+			winKey, loseKey, winner = "key-b", "key-a", "b"
+		}
+		if kind != "xtcp" {
+			c, e := w.Visitor("10.6.6.1:1", &msg.NewVisitorConn{ProxyName: "n"}, winKey)
+			if e != "" {
+				vs.Fail("%s proxy n is registered by session %s, but a visitor holding its key is turned away: %s", kind, winner, e)
+			} else if kind == "stcp" {
+				if e := sw.Echo(c, "through-the-winner"); e != "" {
+					vs.Fail("%s proxy n of session %s does not carry the visitor's stream: %s", kind, winner, e)
+				}
+			}
+			if c != nil {
+				c.Close()
+			}
+			if c2, e := w.Visitor("10.6.6.2:2", &msg.NewVisitorConn{ProxyName: "n"}, loseKey); e == "" {
+				vs.Fail("a visitor holding the key of the REFUSED registration was admitted to proxy n")
+				c2.Close()
+			} else if c2 != nil {
+				c2.Close()
+			}
+		}
+		w.Teardown()
+		if d := w.Dump(); d != w.Base {
+			vs.Fail("state after teardown differs from initial:\n%s", d)
+		}
+	}
+}
+
 // relogin: the client logs in again with its run id while the old session is live (and busy).
 // slowHook is an in-memory server plugin whose NewProxy hook takes 45 s (virtual; longer than every read / connection timeout of the server) for the proxy named "...m":
 // the old session is then still busy handling a message while the re-login arrives.
@@ -271,6 +332,9 @@ func scenarios() {
 		vs.Register(&vs.Scenario{Name: name, Horizon: 300 * time.Second, MaxSteps: 40000, NoEarlyTick: true, End: sw.StdEnd, Body: body})
 	}
 	mk("dupname", scDupName)
+	for _, k := range []string{"stcp", "sudp", "xtcp"} {
+		mk("dupsecret-"+k, scDupSecret(k))
+	}
 	mk("relogin1", scRelogin(1, false))
 	mk("relogin1-busy", scRelogin(1, true))
 	mk("relogin2", scRelogin(2, false))
@@ -284,13 +348,13 @@ func main() {
 	if c == nil {
 		return
 	}
-	c.Rule("E1: real frps on the virtual network, scripted clients; every schedule with at most B deviations of: duplicate-name registration from two sessions, re-login with the same run id (once, while the old session is registering, twice at once), session end racing with a take-over registration, concurrent fresh logins; non-trivial = distinct end state / observation trace")
+	c.Rule("E1: real frps on the virtual network, scripted clients; every schedule with at most B deviations of: duplicate-name registration from two sessions (tcp, and the secret kinds stcp / sudp / xtcp with a visitor probing the winner afterwards), re-login with the same run id (once, while the old session is registering, twice at once), session end racing with a take-over registration, concurrent fresh logins; non-trivial = distinct end state / observation trace")
 	c.Assume("unpredictability of run ids is crypto/rand's; only format and distinctness are checked")
 	b := drv.Pick(c, 2, 3)
 	runs := []struct {
 		s string
 		b int
-	}{{"dupname", b}, {"relogin1", b}, {"relogin1-busy", b - 1}, {"relogin2", b - 1}, {"relogin1-slowhook", b - 1}, {"takeover", b}, {"fresh", 1}}
+	}{{"dupname", b}, {"dupsecret-stcp", b}, {"dupsecret-sudp", b}, {"dupsecret-xtcp", b}, {"relogin1", b}, {"relogin1-busy", b - 1}, {"relogin2", b - 1}, {"relogin1-slowhook", b - 1}, {"takeover", b}, {"fresh", 1}}
 	for i, r := range runs {
 		share := 1.0 / float64(len(runs)-i)
 		if share < 0.4 {
